@@ -288,6 +288,7 @@ def run_check(pid: str, tier: str, root_seed: int, workers=None, budget_override
     global _STOP
     _STOP = ctx.Event()
     findings = load_findings()
+    last_progress = time.time()
     with cf.ProcessPoolExecutor(max_workers=workers, mp_context=ctx) as ex:
         live = {}
         try:
@@ -323,8 +324,12 @@ def run_check(pid: str, tier: str, root_seed: int, workers=None, budget_override
                         _STOP.set()
                         pending.clear()
                         stopped_early = True
-                # hard stop: a chunk that is still running long after the budget is a harness problem
-                if time.time() - t0 > budget + max(120.0, timeout_s * 4) and live:
+                if done:
+                    last_progress = time.time()
+                # hard stop: chunks still running long after the budget AND no chunk finished for a long while (a
+                # loaded machine makes everything slow, which is not an error as long as work keeps completing)
+                if time.time() - t0 > budget + max(120.0, timeout_s * 4) and live and \
+                        time.time() - last_progress > max(300.0, timeout_s * 6):
                     pool_error = f"{len(live)} chunk(s) still running {time.time() - t0:.0f}s after start"
                     for fut in live:
                         fut.cancel()
@@ -389,6 +394,13 @@ def run_check(pid: str, tier: str, root_seed: int, workers=None, budget_override
             core.out(f"HARNESS-ERROR property={pid} run={index}\n{tb}")
         if pool_error:
             core.out(f"HARNESS-ERROR property={pid} pool: {pool_error}")
+
+    # ------------------------------------------------------------------ a blind check does not "hold"
+    max_ood = getattr(check, "MAX_OOD_FRACTION", 0.9)
+    if agg["n"] and exit_code == 0 and agg["ood"] > max_ood * agg["n"]:
+        exit_code = 2
+        core.out(f"HARNESS-ERROR property={pid} the check is blind: {agg['ood']} of {agg['n']} runs were out of domain "
+                 f"(the generated cases do not reach the code under test on this tree)")
 
     # ------------------------------------------------------------------ determinism probe
     # a few runs of this very batch again, in a FRESH interpreter under another hash seed: same event-log digests
